@@ -301,34 +301,53 @@ not have the error flag, then (`Proofs.WholeFinalPlace`) the registry and the wo
 in the directory of the last move/flag/flags action, under its own or a formerly free name, bound to a
 file that holds the rewritten message if `ml` contains a label or add-header (in any case the
 original or the rewritten bytes); the original entry is free unless it is the final one; every other
-entry of every directory is bound as before.  The verdict is the pure `Proofs.verdict`: the statement is for rule trees
-that ask the operating system nothing (`Proofs.asksFree`: no `command`, `isdirectory`, file-time `date` condition), for
-which it is the verdict of every run (`Proofs.verdictAt_asksFree`).
+entry of every directory is bound as before.  The rules are evaluated inside the run (the one fault may hit a call of
+evaluation): the statement is for the verdict `Proofs.verdictA … as` of SOME answers `as` of the operating system (those of
+the run), `Proofs.WholeExit0V`: not an error verdict; an action list - final place; no match - the registry is unchanged.  For
+a rule tree without `command` / `isdirectory` / file-time `date` conditions this is the pure verdict (`C01_message_exit0_pure`).
 
 With `C04_error_iff_partial` (exit status 0 iff no cause of the error flag occurred, in particular no
 message's error bit) this is `C01_main_exit0` message by message: "final place" is a notion of one
 processing step - a message moved into a maildir that is walked later is processed again - so the
 statement is made per step and not once for the run. -/
 theorem C01_message_exit0 (env : PEnv) (orc : EvalOracles) (expr : Expr) (md : Maildir) (name : Bytes) (st : MainSt)
+    (w : World) (plan : Plan) (d : Handle) (content : Bytes) (fid : Nat)
+    (hd : md.dirH = some d) (hp : w.dirPath d = some md.path)
+    (hwf : pathjoin PATH_MAX md.root (subdirName md.subdir) = some md.path)
+    (hfc : st.files.get md.path name = some content)
+    (hl : w.lookup md.path name = some fid) (hf : w.file fid = some ⟨content, content⟩) (hc : Proofs.WholeClean w)
+    (hnd : Proofs.WholeNoDiscard env orc expr)
+    (hdry : env.dryrun = false) (hpl : Proofs.World.SingleFault plan)
+    (he : (runPlan plan (processMessage env orc expr md name st) w 0 []).1.1.error = false) :
+    ∃ as, Proofs.WholeExit0V w md name content st (runPlan plan (processMessage env orc expr md name st) w 0 []).1
+      (runPlan plan (processMessage env orc expr md name st) w 0 []).2.1 (Proofs.verdictA env orc expr md.path name content as) :=
+  Proofs.whole_message_exit0 env orc expr md name st w plan hd hp hwf hfc hl hf hc hnd hdry hpl he
+
+/-- The same for a rule tree that asks the operating system nothing, in terms of the pure verdict: if the rules act on the
+message (list `ml`), it is at its final place. -/
+theorem C01_message_exit0_pure (env : PEnv) (orc : EvalOracles) (expr : Expr) (md : Maildir) (name : Bytes) (st : MainSt)
     (w : World) (plan : Plan) (d : Handle) (content : Bytes) (fid : Nat) (ml : MatchList) (msgs : Nat → Msg) (fl : MFlags)
     (hd : md.dirH = some d) (hp : w.dirPath d = some md.path)
     (hwf : pathjoin PATH_MAX md.root (subdirName md.subdir) = some md.path)
     (hfc : st.files.get md.path name = some content)
     (hl : w.lookup md.path name = some fid) (hf : w.file fid = some ⟨content, content⟩) (hc : Proofs.WholeClean w)
-    (hfree : Proofs.asksFree expr = true)
-    (hvd : Proofs.verdict env orc expr md.path name content = .act ml msgs fl) (hml : Proofs.NoDiscard ml)
+    (hfree : Proofs.asksFree expr = true) (hnd : Proofs.WholeNoDiscard env orc expr)
+    (hvd : Proofs.verdict env orc expr md.path name content = .act ml msgs fl)
     (hdry : env.dryrun = false) (hpl : Proofs.World.SingleFault plan)
     (he : (runPlan plan (processMessage env orc expr md name st) w 0 []).1.1.error = false) :
     Proofs.WholeFinalPlace w md name content ml (msgs 0) (runPlan plan (processMessage env orc expr md name st) w 0 []).1
-      (runPlan plan (processMessage env orc expr md name st) w 0 []).2.1 :=
-  Proofs.whole_message_exit0 env orc expr md name st w plan hd hp hwf hfc hl hf hc hfree hvd hml hdry hpl he
+      (runPlan plan (processMessage env orc expr md name st) w 0 []).2.1 := by
+  obtain ⟨as, h⟩ := C01_message_exit0 env orc expr md name st w plan d content fid hd hp hwf hfc hl hf hc hnd hdry hpl he
+  rw [Proofs.verdictA_asksFree env orc expr hfree, hvd] at h
+  exact h
 
 /-- Non-vacuity: the rules of the example act on its first message, without discard; not a dry run;
 the plan that fails call 5 with `EIO` has at most one fault. -/
 example : (∃ ml msgs fl, Proofs.verdict Proofs.exEnv Proofs.wholeExOrc Proofs.wholeExExpr Proofs.exMd.path Proofs.exName Proofs.exOrig =
       .act ml msgs fl ∧ Proofs.NoDiscard ml) ∧ Proofs.asksFree Proofs.wholeExExpr = true ∧
+    Proofs.WholeNoDiscard Proofs.exEnv Proofs.wholeExOrc Proofs.wholeExExpr ∧
     Proofs.exEnv.dryrun = false ∧ Proofs.World.SingleFault (Proofs.World.singlePlan 5 (.fail "EIO")) := by
-  refine ⟨?_, by decide, rfl, Proofs.World.singleFault_single _ _⟩
+  refine ⟨?_, by decide, Proofs.whole_noDiscard_of_syntax _ _ _ (by decide), rfl, Proofs.World.singleFault_single _ _⟩
   have hacts : (Proofs.verdict Proofs.exEnv Proofs.wholeExOrc Proofs.wholeExExpr Proofs.exMd.path Proofs.exName Proofs.exOrig).acts = true := by
     unfold Proofs.verdict Proofs.msVerdict Proofs.wholeExExpr
     simp only [eval]
